@@ -13,10 +13,10 @@ PID = "C17"
 INV = ["ExecOnce", "DeliverOnce", "NothingLost", "StepsExact", "NeverTooMany", "CleanStop"]
 
 
-def _cfg(path, w, steps, c0, mayfail, live=True, cont=False):
+def _cfg(path, w, steps, c0, mayfail, live=True, cont=False, over=False):
     with open(path, "w") as fh:
         fh.write(f"SPECIFICATION {'FairSpec' if live else 'Spec'}\nCONSTANTS\n  W = {w}\n  Steps = {steps}\n  C0 = {c0}\n"
-                 f"  MayFail = {'TRUE' if mayfail else 'FALSE'}\n  ContinueOnFail = {'TRUE' if cont else 'FALSE'}\n")
+                 f"  MayFail = {'TRUE' if mayfail else 'FALSE'}\n  ContinueOnFail = {'TRUE' if cont else 'FALSE'}\n  OverIssue = {'TRUE' if over else 'FALSE'}\n")
         for i in INV:
             fh.write(f"INVARIANT {i}\n")
         if live:
@@ -136,7 +136,7 @@ def _sched_job(args):
     else:
         if info["ndeliv"] != todo:
             problems.append(f"{info['ndeliv']} results consumed for {todo} moves left to do")
-        if todo >= w:
+        if steps >= w:          # the property's premise is on the step count, not on what a restart point leaves to do
             if info["nsubmit"] != todo or info["ndeliv"] != todo:
                 problems.append(f"{info['nsubmit']} submissions and {info['ndeliv']} deliveries for {todo} requested moves")
             if sorted(info["nexec"].values()) != [1] * todo:
@@ -182,6 +182,18 @@ def run(sc, tier):
         for b in tlc.read_sim_traces(out):
             behs_all.append((w, b))
         common.rmtree(out)
+    # the weakening the repository had before 7cc4d53 (one initial submission per worker whenever a step is left) must be refuted
+    cfg = os.path.join(sc.work, "Runner_overissue.cfg")
+    _cfg(cfg, 2, 5, 4, False, live=False, over=True)
+    try:
+        res = tlc.run_tlc("Runner", cfg, timeout=600, allow_violation=True, coverage=False)
+        chk.add_tlc(res, {"W": 2, "Steps": 5, "C0": 4, "OverIssue": True, "expected": "refuted"})
+        if res["ok"]:
+            chk.machinery("Runner.tla with OverIssue = TRUE (more initial submissions than steps left) is not refuted: StepsExact / NeverTooMany are vacuous")
+        else:
+            print(f"  Runner.tla with OverIssue = TRUE refuted as expected ({res['violated']})", flush=True)
+    except tlc.TLCError as exc:
+        chk.machinery(str(exc)[:1500])
     jobs = []
     for i, (w, b) in enumerate(behs_all):
         script, fails = script_of(b)
